@@ -247,7 +247,7 @@ def cases_for(tier):
                 continue
             small = n <= 3
             for name, spec in size_specs(n, tier, small):
-                if n == 5 and name == "list" and sum(1 for x in spec[1] if x is not None) > 1:
+                if n == 5 and name == "list" and (sum(1 for x in spec[1] if x is not None) > 1 or len(edges) != 4):
                     continue
                 out.append({"variant": "plain", "form": "graph", "n": n, "edges": list(edges), "spec": spec})
                 if name == "list" and n <= 3:
@@ -264,6 +264,8 @@ def cases_for(tier):
                 continue
             if tier == "quick" and n == 6 and name == "list" and any(x is not None for x in spec[1]):
                 continue
+            if n == 8 and name == "list" and any(x is not None for x in spec[1]) and (h, w) != (2, 4):
+                continue  # 4140 partitions per list: per-cell sizes on one 8-cell shape only
             out.append({"variant": "plain", "form": "grid", "shape": [h, w], "n": n, "spec": spec})
             if name == "list" and n <= 4:
                 out.append({"variant": "plain", "form": "grid", "shape": [h, w], "n": n, "spec": spec, "infer_shape": True})
@@ -343,7 +345,7 @@ def prepare(tier):
     base_cases = cases_for(tier)
     used = [dict(c, used=True) for c in base_cases[:: (13 if tier == "quick" else 3)] if _small(c)]
     # Graph objects with a history: some edges added only after the object has been used by other constraints
-    for c in base_cases[:: (11 if tier == "quick" else 2)]:
+    for c in base_cases[:: (11 if tier == "quick" else 5)]:
         if "edges" in c and "shape" not in c and 2 <= len(c["edges"]) <= 5 and c.get("n", 9) <= 4:
             used.append(dict(c, grown=1))
             used.append(dict(c, grown=len(c["edges"]) - 1))
